@@ -8,7 +8,7 @@ WT=/tmp/wt/seedrun-$SID-$PROP
 OUTD=/tmp/wtout/seedrun/$SID-$PROP
 rm -rf $OUTD; mkdir -p $OUTD
 git -C /repo worktree add --detach $WT HEAD >/dev/null 2>&1 || { echo "$SID $PROP worktree-failed"; exit 2; }
-git -C $WT apply /verif/seeded/$SID/patch.diff || { echo "$SID $PROP patch-failed"; git -C /repo worktree remove --force $WT; exit 2; }
+git -C $WT apply ${SEED_DIR:-/verif/seeded}/$SID/patch.diff || { echo "$SID $PROP patch-failed"; git -C /repo worktree remove --force $WT; exit 2; }
 cd /verif
 VERIF_REPO=$WT VERIF_OUT=$OUTD VERIF_SCRATCH=/var/tmp/lc3v-seed/$SID-$PROP VERIF_NO_PLAYBACK=${VERIF_NO_PLAYBACK-1} ./check $PROP --tier $TIER > $OUTD/stdout.txt 2> $OUTD/stderr.txt
 rc=$?
